@@ -115,6 +115,13 @@ func checkC15() fw.Check {
 					}
 				}
 			}
+			for _, proto := range []string{"udp", "tcp"} {
+				for _, ca := range []time.Duration{150 * time.Millisecond, 1100 * time.Millisecond, 2500 * time.Millisecond} {
+					// some participants fail on their own AND the caller cancels: the individual failures must still be exposed
+					reqs = append(reqs, c15Req{proto: proto, q: 2, e: 2, failRuns: []int{0}, failE2e: []int{0}, fetcher: "ok", reach: true, cancelAt: ca})
+					reqs = append(reqs, c15Req{proto: proto, q: 3, e: 1, failRuns: []int{1, 2}, fetcher: "none", reach: false, cancelAt: ca})
+				}
+			}
 			var cases []fw.Case
 			for i, rq := range reqs {
 				rq := rq
